@@ -208,16 +208,108 @@ Lemma expand_total_amount_lemma d l :
   = zsum (map (fun r => (r_addl r + 1) * r_amt r) (ds_rows d)).
 Proof.
   intros Ha G. unfold expand_impl. rewrite Ha. cbn [negb].
-  destruct (negb (range_index (ds_sch d)) && existsb _ (ds_rows d)); [discriminate|].
   intros H. injection H as <-. rewrite relabel_amounts.
-  rewrite (zsum_perm _ _ (Permutation_map _ (expand_core_perm (ds_sch d) (ds_rows d)))).
-  apply exploded_amounts. exact G.
+  rewrite (zsum_perm _ _ (Permutation_map _ (expand_core_perm (ds_sch d) (relab_from 0 (ds_rows d))))).
+  rewrite exploded_amounts.
+  - f_equal. clear. generalize 0. induction (ds_rows d) as [|r l IH]; intros k; [reflexivity|].
+    cbn [relab_from map]. rewrite IH. reflexivity.
+  - unfold g_addl_nonneg in *. rewrite forallb_forall in *. intros r Hr.
+    assert (In (r_addl r) (map r_addl (relab_from 0 (ds_rows d)))) by (apply in_map; exact Hr).
+    assert (E : forall l k, map r_addl (relab_from k l) = map r_addl l).
+    { induction l as [|x l IH]; intros k; [reflexivity|]. cbn [relab_from map]. rewrite IH. reflexivity. }
+    rewrite E in H. apply in_map_iff in H. destruct H as [r' [<- Hr']]. apply G. exact Hr'.
 Qed.
 
 (* without an ADDL / II pair the model is returned as it is *)
 Lemma expand_noop_lemma d :
   has_addl (ds_sch d) && has_ii (ds_sch d) = false -> expand_impl d = Ok (map (fun r => (r, false)) (ds_rows d)).
 Proof. intros H. unfold expand_impl. rewrite H. reflexivity. Qed.
+
+(* ------------------------------------------------------------------ reset_index(drop=True) *)
+Definition unlab (r : row) : row := set_lab r 0.
+
+Lemma cons_inj {A} (x y : A) a b : x :: a = y :: b -> x = y /\ a = b.
+Proof. intros H. injection H as H1 H2. auto. Qed.
+
+Lemma unlab_set_lab r k : unlab (set_lab r k) = unlab r.
+Proof. reflexivity. Qed.
+
+Lemma relab_unlab rows : forall k, map unlab (relab_from k rows) = map unlab rows.
+Proof. induction rows as [|r l IH]; intros k; [reflexivity|]. cbn [relab_from map]. rewrite IH. reflexivity. Qed.
+
+Lemma relab_map {B} (f : row -> B) rows : (forall r k, f (set_lab r k) = f r) ->
+  forall k, map f (relab_from k rows) = map f rows.
+Proof. intros H. induction rows as [|r l IH]; intros k; [reflexivity|]. cbn [relab_from map]. rewrite H, IH. reflexivity. Qed.
+
+Lemma relab_labels rows : forall k, labels_from k (relab_from k rows) = true.
+Proof.
+  induction rows as [|r l IH]; intros k; [reflexivity|]. cbn [relab_from labels_from]. cbn [set_lab r_lab].
+  rewrite Z.eqb_refl, IH. reflexivity.
+Qed.
+
+Lemma unlab_id r r' : unlab r = unlab r' -> r_id r = r_id r'.
+Proof. intros H. apply (f_equal r_id) in H. exact H. Qed.
+Lemma unlab_time r r' : unlab r = unlab r' -> r_time r = r_time r'.
+Proof. intros H. apply (f_equal r_time) in H. exact H. Qed.
+Lemma unlab_evid r r' : unlab r = unlab r' -> r_evid r = r_evid r'.
+Proof. intros H. apply (f_equal r_evid) in H. exact H. Qed.
+
+Lemma sum_filter_unlab (f : row -> Z) (p p' : row -> bool) l : forall l',
+  map unlab l = map unlab l' ->
+  (forall r r', unlab r = unlab r' -> p r = p' r' /\ f r = f r') ->
+  zsum (map f (filter p l)) = zsum (map f (filter p' l')).
+Proof.
+  induction l as [|r l IH]; intros [|r' l'] E H; try discriminate; [reflexivity|].
+  cbn [map] in E. apply cons_inj in E. destruct E as [E1 E2]. destruct (H r r' E1) as [Hp Hf]. cbn [filter]. rewrite Hp.
+  destruct (p' r'); cbn [map]; rewrite ?zsum_cons, ?Hf; rewrite (IH l' E2 H); reflexivity.
+Qed.
+
+Lemma resetgroups_relab s rows k : resetgroups s (relab_from k rows) = resetgroups s rows.
+Proof.
+  unfold resetgroups. destruct (has_evid s).
+  - unfold group_cumsum.
+    assert (G : forall l k rp rp', map unlab rp = map unlab rp' ->
+      scan (fun rpre x => zsum (map reset_flag (filter (same_id x) rpre)) + reset_flag x) rp (relab_from k l)
+      = scan (fun rpre x => zsum (map reset_flag (filter (same_id x) rpre)) + reset_flag x) rp' l).
+    { induction l as [|r l IH]; intros k0 rp rp' E; [reflexivity|]. cbn [relab_from scan]. f_equal.
+      - f_equal. apply sum_filter_unlab; [exact E|]. intros a a' Ha. unfold same_id, reset_flag.
+        cbn [set_lab r_id]. rewrite (unlab_id a a' Ha), (unlab_evid a a' Ha). auto.
+      - apply IH. cbn [map]. rewrite E. reflexivity. }
+    apply G. reflexivity.
+  - clear. revert k. induction rows as [|r l IH]; intros k; [reflexivity|]. cbn [relab_from map]. rewrite IH. reflexivity.
+Qed.
+
+Definition unlabA (a : row * Z) : row * Z := (unlab (fst a), snd a).
+
+Lemma forallb_unlabA (Q Q' : row * Z -> bool) l : forall l',
+  map unlabA l = map unlabA l' -> (forall a a', unlabA a = unlabA a' -> Q a = Q' a') -> forallb Q l = forallb Q' l'.
+Proof.
+  induction l as [|a l IH]; intros [|a' l'] E H; try discriminate; [reflexivity|].
+  cbn [map] in E. apply cons_inj in E. destruct E as [E1 E3]. cbn [forallb].
+  rewrite (H a a' E1). rewrite (IH l' E3 H). reflexivity.
+Qed.
+
+Lemma unlabA_fields a a' : unlabA a = unlabA a' -> a_id a = a_id a' /\ a_time a = a_time a' /\ snd a = snd a'.
+Proof.
+  unfold unlabA, a_id, a_time. intros H. assert (H1 := f_equal fst H). assert (H2 := f_equal snd H). cbn [fst snd] in H1, H2.
+  repeat split; [apply unlab_id | apply unlab_time |]; assumption.
+Qed.
+
+Lemma chrono_relab s rows k : g_chrono (ann s (relab_from k rows)) = g_chrono (ann s rows).
+Proof.
+  unfold g_chrono, forall_ctx, ann. rewrite resetgroups_relab. generalize (resetgroups s rows) as rgs.
+  assert (G : forall l k rgs rp rp', map unlabA rp = map unlabA rp' ->
+    forall_ctx_from (fun rpre x _ => forallb (fun y => negb (a_same x y && (snd x =? snd y)) || (a_time y <=? a_time x)) rpre)
+                    rp (combine (relab_from k l) rgs)
+    = forall_ctx_from (fun rpre x _ => forallb (fun y => negb (a_same x y && (snd x =? snd y)) || (a_time y <=? a_time x)) rpre)
+                      rp' (combine l rgs)).
+  { induction l as [|r l IH]; intros k0 [|g rgs] rp rp' E; try reflexivity.
+    cbn [relab_from combine forall_ctx_from]. f_equal.
+    - apply forallb_unlabA; [exact E|]. intros a a' Ha. destruct (unlabA_fields a a' Ha) as [H1 [H2 H3]].
+      unfold a_same. unfold a_id at 1 3, a_time at 2 4. cbn [fst snd set_lab r_id r_time]. rewrite H1, H2, H3. reflexivity.
+    - apply IH. cbn [map]. rewrite E. reflexivity. }
+  intros rgs. apply G. reflexivity.
+Qed.
 
 (* ================================================================== order of the original records *)
 (* nondecreasing, in the strong (pairwise) form *)
@@ -588,12 +680,16 @@ Lemma expand_keeps_originals_lemma d l : guard_expand_order d = true -> expand_i
   map (fun p : row * bool => set_lab (fst p) 0) (filter (fun p => negb (snd p)) l)
   = map (fun r => set_lab r 0) (ds_rows d).
 Proof.
-  unfold guard_expand_order. intros G. apply andb_prop in G. destruct G as [G Gchr].
-  apply andb_prop in G. destruct G as [Glab Gids].
+  unfold guard_expand_order. intros G. apply andb_prop in G. destruct G as [Gids Gchr].
   unfold expand_impl. destruct (negb (has_addl (ds_sch d) && has_ii (ds_sch d))).
   - intros H. injection H as <-. apply noop_originals.
-  - destruct (negb (range_index (ds_sch d)) && existsb _ (ds_rows d)); [discriminate|].
-    intros H. injection H as <-. rewrite relabel_originals.
-    rewrite <- (expand_core_originals (ds_sch d) (ds_rows d) Glab Gids Gchr) at 2.
+  - intros H. injection H as <-. rewrite relabel_originals.
+    set (rows' := relab_from 0 (ds_rows d)).
+    assert (Glab : g_labels_range rows' = true) by apply relab_labels.
+    assert (Gids' : g_ids_ascending rows' = true).
+    { unfold g_ids_ascending, rows'. rewrite (relab_map r_id) by reflexivity. exact Gids. }
+    assert (Gchr' : g_chrono (ann (ds_sch d) rows') = true) by (unfold rows'; rewrite chrono_relab; exact Gchr).
+    transitivity (map (fun r => set_lab r 0) rows'); [|apply (relab_unlab (ds_rows d) 0)].
+    rewrite <- (expand_core_originals (ds_sch d) rows' Glab Gids' Gchr') at 2.
     rewrite map_map. reflexivity.
 Qed.
